@@ -257,6 +257,9 @@ func hashKey(v Value) (string, bool) {
 	case uint64:
 		return fmt.Sprintf("u%d", v), true
 	case float64:
+		if v != v {
+			return "", false // NaN is never equal to itself
+		}
 		return fmt.Sprintf("f%v", v), true
 	case string:
 		return "s" + v, true
